@@ -217,6 +217,19 @@ func linesExpr(v linesVal, form int, vars *linesVarAlloc) string {
 	switch v["t"] {
 	case "n":
 		n, d := v["n"].(int64), v["d"].(int64)
+		if n == 0 {
+			// zero reached through a negative operand is IEEE's negative zero: still the integral number 0
+			switch form % 7 {
+			case 4:
+				return "0 * (-1)"
+			case 5:
+				return "(-4) % 2"
+			case 6:
+				name := vars.fresh()
+				vars.nums[name] = math.Copysign(0, -1)
+				return "$" + name
+			}
+		}
 		switch form % 4 {
 		case 0:
 			return linesDecimal(n, d)
